@@ -252,7 +252,7 @@ def run_case(case, ka, T=1.0):
         if rb[0] != 'ok':
             vio.append(('reassembled-exactly', f'second object: {rb[:2]}'))
         return vio, (ra[0], na)
-    if kind == 'cross':
+    if kind in ('cross', 'cross-newloop'):
         # a fragment left over from an EARLIER REQUEST (ended by an exception frame, a timeout or a late remainder)
         # must not be combined with data received for the next request on the same object
         endA, txB, same = case[4], case[5], case[6]
@@ -289,6 +289,10 @@ def run_case(case, ka, T=1.0):
         mk = (lambda: pr.read_command(100, count)) if framing != 'aa55' else (lambda: gp.Aa55ProtocolCommand("010600", "0186"))
         loop.run(_exec(mk(), pr))
         state['phase'] = 'B'
+        if kind == 'cross-newloop':
+            # the object lives on, the second request is made from the next asyncio.run()
+            loop.shutdown_like_asyncio_run()
+            loop = KLoop(kern=loop.kern)
         nA = len(peer.sent)
         st, res = loop.run(_exec(mk(), pr))
         if st == 'hang':
@@ -325,6 +329,8 @@ def cases_for(framing, tier):
                 for txB in ('frag2', 'frag2-slow', 'rem-shaped', 'first-piece-only', 'full'):
                     for same in (True, False):
                         yield ('cross', framing, count, p, endA, txB, same)
+                        if endA in ('success-fragmented', 'timeout') and txB in ('frag2', 'frag2-slow') and same:
+                            yield ('cross-newloop', framing, count, p, endA, txB, same)
     for count in ([1, 3, 61, 125] if tier == 'thorough' else [3]):
         L = len(frame(framing, count, b'\0\0'))
         for p in (range(MINH[framing], L) if count <= 3 else [MINH[framing], L // 2, L - 1]):
@@ -367,7 +373,7 @@ def job(j):
         if sample is None and case[0] == 'left':
             sample = dict(framing=framing, ka=ka, case=[c.hex() if isinstance(c, bytes) else c for c in case], outcome=o)
         for clause, cause in v:
-            sub = case[4] if case[0] in ('neg',) else (f'{case[4]}/{case[5]}' if case[0] in ('left', 'cross') else case[4])
+            sub = case[4] if case[0] in ('neg',) else (f'{case[4]}/{case[5]}' if case[0] in ('left', 'cross', 'cross-newloop') else case[4])
             if case[0] == 'pos' and len(case) > 5:
                 sub = f'remainder-begins-with-{case[5]}' if not str(case[5]).startswith('mbap=') else f'unreliable-length-field:{case[5][5:]}'
             key = f'{clause}/{framing}/ka={int(ka)}/{case[0]}:{sub}'
